@@ -351,7 +351,7 @@ func runClientver(o opts) error {
 				sid = -2
 			}
 		}
-		cl.Kill()
+		boundedKill(cl)
 		in := sx.L{sx.L{sx.I(c.CVersion), sx.Bool(c.HasLegacy), sx.L{sx.I(c.Legacy.ID), sx.I(c.Legacy.Kind)}, ents}, sx.S(c.Field)}
 		obs := sx.L{sx.I(ok), sx.I(ver), sx.I(sid)}
 		sink.Put(102, fmt.Sprintf("cv%d", i), in, obs, c)
@@ -649,7 +649,7 @@ func runNegotiate2(o opts) error {
 		}
 		kills := sr.KillCount()
 		if serr != nil {
-			cl.Kill()
+			boundedKill(cl)
 		} else {
 			sr.Exit() // a Kill would first try to connect to the announced (fictitious) address
 		}
